@@ -1590,3 +1590,210 @@ func constInt64(info *types.Info, e ast.Expr) (int64, bool) {
 	}
 	return v, true
 }
+
+// ConstructorCompleteness is rule E2-N12. A pointer field of a module struct that is dereferenced somewhere without
+// being a declared may-be-nil field (table n2Fields) is assumed non-nil by the code; then every construction of the
+// owning struct - a composite literal of it, or of a struct that contains it by value - must set the field (in the
+// literal, through a constructor call for the containing value, or by an assignment to the new object in the same
+// function). Otherwise some object reaches the dereference with a nil field.
+var n12Exceptions = map[string]string{
+	"netpol/eval.(*PolicyEngine).addRepresentativePod: literal of Pod leaves IngressExposureData.ClusterWideConnection unset": "representative pods are never selected by a policy (NetworkPolicy.Selects returns false under IsPodRepresentative, rule E2-N12-rep), and the cluster-wide connection of a pod is touched only for the pod a policy selected",
+	"netpol/eval.(*PolicyEngine).addRepresentativePod: literal of Pod leaves EgressExposureData.ClusterWideConnection unset":  "same as the ingress field",
+}
+
+func ConstructorCompleteness(p *core.Program, r *core.Report) {
+	// 1. pointer fields of module structs that are dereferenced (selected from / method called on) somewhere
+	type fieldInfo struct {
+		owner *types.Named
+		fld   *types.Var
+		pos   token.Pos
+	}
+	assumed := map[*types.Var]fieldInfo{}
+	declaredNil := map[*types.Var]bool{}
+	for key := range n2Fields {
+		parts := strings.Split(key, ".")
+		if len(parts) < 3 || parts[len(parts)-1] == "*" {
+			continue
+		}
+		pkg := core.ModPath + "/pkg/" + strings.Join(parts[:len(parts)-2], ".")
+		if f := p.Field(pkg, parts[len(parts)-2], parts[len(parts)-1]); f != nil {
+			declaredNil[f] = true
+		}
+	}
+	ownerOf := map[*types.Var]*types.Named{}
+	for _, nt := range p.Named {
+		if st, ok := nt.Underlying().(*types.Struct); ok {
+			for i := 0; i < st.NumFields(); i++ {
+				ownerOf[st.Field(i)] = nt
+			}
+		}
+	}
+	for _, fd := range p.Funcs {
+		info := fd.Pkg.TypesInfo
+		ast.Inspect(fd.Decl.Body, func(nd ast.Node) bool {
+			se, ok := nd.(*ast.SelectorExpr)
+			if !ok {
+				return true
+			}
+			inner, ok := ast.Unparen(se.X).(*ast.SelectorExpr)
+			if !ok {
+				return true
+			}
+			f := core.FieldOf(info, inner)
+			if f == nil || declaredNil[f] || ownerOf[f] == nil {
+				return true
+			}
+			pt, ok := f.Type().Underlying().(*types.Pointer)
+			if !ok {
+				return true
+			}
+			if nt := core.NamedOf(pt.Elem()); nt == nil || nt.Obj().Pkg() == nil || !strings.HasPrefix(nt.Obj().Pkg().Path(), core.ModPath) {
+				return true // API objects are covered by N1
+			}
+			if _, seen := assumed[f]; !seen {
+				assumed[f] = fieldInfo{ownerOf[f], f, se.Pos()}
+			}
+			return true
+		})
+	}
+	// 2. paths from a containing struct to an assumed field through by-value struct fields
+	type path struct {
+		names []string
+		fld   *types.Var
+	}
+	var pathsOf func(nt *types.Named, depth int) []path
+	pathsOf = func(nt *types.Named, depth int) []path {
+		var out []path
+		st, ok := nt.Underlying().(*types.Struct)
+		if !ok || depth > 2 {
+			return nil
+		}
+		for i := 0; i < st.NumFields(); i++ {
+			f := st.Field(i)
+			if _, ok := assumed[f]; ok {
+				out = append(out, path{[]string{f.Name()}, f})
+			}
+			if inner := core.NamedOf(f.Type()); inner != nil {
+				if _, isPtr := f.Type().Underlying().(*types.Pointer); !isPtr && inner.Obj().Pkg() != nil && strings.HasPrefix(inner.Obj().Pkg().Path(), core.ModPath) {
+					for _, sub := range pathsOf(inner, depth+1) {
+						out = append(out, path{append([]string{f.Name()}, sub.names...), sub.fld})
+					}
+				}
+			}
+		}
+		return out
+	}
+	// 3. every composite literal of a struct with such paths
+	n := 0
+	for _, fd := range p.Funcs {
+		info := fd.Pkg.TypesInfo
+		ast.Inspect(fd.Decl.Body, func(nd ast.Node) bool {
+			cl, ok := nd.(*ast.CompositeLit)
+			if !ok {
+				return true
+			}
+			nt := core.NamedOf(info.TypeOf(cl))
+			if nt == nil || nt.Obj().Pkg() == nil || !strings.HasPrefix(nt.Obj().Pkg().Path(), core.ModPath) {
+				return true
+			}
+			if _, isStruct := nt.Underlying().(*types.Struct); !isStruct {
+				return true
+			}
+			paths := pathsOf(nt, 0)
+			if len(paths) == 0 {
+				return true
+			}
+			set := map[string]bool{}
+			for _, el := range cl.Elts {
+				if kv, isKV := el.(*ast.KeyValueExpr); isKV && !core.IsNil(info, kv.Value) {
+					set[core.ExprStr(kv.Key)] = true
+				}
+			}
+			// the variable the literal is bound to, and later assignments v.F... = in the same function
+			var bound types.Object
+			ast.Inspect(fd.Decl.Body, func(m ast.Node) bool {
+				if as, isAs := m.(*ast.AssignStmt); isAs && len(as.Lhs) == 1 && len(as.Rhs) == 1 {
+					rhs := ast.Unparen(as.Rhs[0])
+					if ue, isU := rhs.(*ast.UnaryExpr); isU && ue.Op == token.AND {
+						rhs = ast.Unparen(ue.X)
+					}
+					if rhs == ast.Expr(cl) {
+						if id, isID := as.Lhs[0].(*ast.Ident); isID {
+							bound = info.ObjectOf(id)
+						}
+					}
+				}
+				return true
+			})
+			if bound != nil {
+				ast.Inspect(fd.Decl.Body, func(m ast.Node) bool {
+					if as, isAs := m.(*ast.AssignStmt); isAs {
+						for i, l := range as.Lhs {
+							se, isSe := ast.Unparen(l).(*ast.SelectorExpr)
+							if !isSe {
+								continue
+							}
+							if id := core.RootIdent(se); id == nil || info.ObjectOf(id) != bound {
+								continue
+							}
+							if i < len(as.Rhs) && core.IsNil(info, as.Rhs[i]) {
+								continue
+							}
+							// v.A.B = ...  sets the path A.B (and everything below A when A itself is assigned)
+							chain := strings.TrimPrefix(core.ExprStr(se), core.ExprStr(core.RootIdent(se))+".")
+							set[chain] = true
+						}
+					}
+					return true
+				})
+			}
+			for _, pa := range paths {
+				full := strings.Join(pa.names, ".")
+				ok := false
+				for i := 1; i <= len(pa.names); i++ {
+					if set[strings.Join(pa.names[:i], ".")] {
+						ok = true
+					}
+				}
+				n++
+				construct := fmt.Sprintf("%s: literal of %s leaves %s unset", fd.Key(), nt.Obj().Name(), full)
+				okConstruct := fmt.Sprintf("%s: literal of %s sets %s", fd.Key(), nt.Obj().Name(), full)
+				if ok {
+					r.OK("E2-N12", okConstruct, p.Pos(cl.Pos()), "set in the literal or assigned to the new object in the same function")
+					continue
+				}
+				if why, isEx := n12Exceptions[construct]; isEx {
+					r.Add("E2-N12", construct, p.Pos(cl.Pos()), core.Excepted, why)
+					continue
+				}
+				r.Bad("E2-N12", construct, p.Pos(cl.Pos()), fmt.Sprintf("%s.%s is dereferenced without a nil test (e.g. at %s) and is not a declared may-be-nil field, but this construction of %s leaves it nil: an object built here panics when it reaches that dereference", assumed[pa.fld].owner.Obj().Name(), pa.fld.Name(), p.Pos(assumed[pa.fld].pos), nt.Obj().Name()))
+			}
+			return true
+		})
+	}
+	r.RuleCounts["E2-N12"] = n
+	r.RuleCounts["E2-N12-fields"] = len(assumed)
+	// premise of the two exceptions: policies never select representative pods
+	if sel := p.Func(core.PkgK8s, "NetworkPolicy", "Selects"); sel != nil {
+		info := sel.Pkg.TypesInfo
+		ok := false
+		ast.Inspect(sel.Decl.Body, func(nd ast.Node) bool {
+			ifs, isIf := nd.(*ast.IfStmt)
+			if !isIf || len(ifs.Body.List) != 1 {
+				return true
+			}
+			c, isC := ast.Unparen(ifs.Cond).(*ast.CallExpr)
+			if !isC {
+				return true
+			}
+			if fn := core.Callee(info, c); fn == nil || fn.Name() != "IsPodRepresentative" {
+				return true
+			}
+			if ret, isRet := ifs.Body.List[0].(*ast.ReturnStmt); isRet && len(ret.Results) == 2 && core.ExprStr(ret.Results[0]) == "false" {
+				ok = true
+			}
+			return true
+		})
+		r.Check(ok, "E2-N12-rep", sel.Key()+": a representative pod is never selected by a policy", p.Pos(sel.Decl.Pos()), "if p.IsPodRepresentative() { return false, nil }", "NetworkPolicy.Selects no longer rejects representative pods: they can now reach the cluster-wide exposure update with nil exposure data")
+	}
+}
